@@ -65,12 +65,25 @@ def run(ck):
         r = sh([h, str(2 if numeric_db else maxlen)], input=('%d %s\n' % (u, ' '.join(items))).encode(), env=env, cwd=w, timeout=1500)
         reports = [open(os.path.join(w, f), errors='replace').read()[:2000] for f in os.listdir(w) if f.startswith(('asan.', 'ubsan.'))]
         return u, r, reports, len(items)
-    djobs = [(u, False) for u in UIDS] + [(u, True) for u in UIDS]
-    for (u0, numdb), (u, r, reports, ni) in zip(djobs, pmap(lambda a: direct(*a), djobs)):
+    # build axis "long has 32 bits": every conversion through long saturates as on i386/armhf/x32 (native/ilp32.c)
+    ILP32 = ['-Datol=vs32_atol', '-Datoi=vs32_atoi', '-Dstrtol=vs32_strtol', '-Dstrtoul=vs32_strtoul']
+    v32 = build.build_variant('c14-ilp32-asan', ts=True, san='asan', nonreentrant=True, extra_cflags=ILP32)
+    h32 = build.link_harness(v32, os.path.join(v32['dir'], 'h_uid'), [os.path.join(NATIVE, 'h_uid.c'), os.path.join(NATIVE, 'seam.c'), os.path.join(NATIVE, 'ilp32.c')])
+    h64 = h
+
+    def direct32(u):
+        w = os.path.join(ck.workdir, 'l%d' % u)
+        os.makedirs(w, exist_ok=True)
+        items = alphabet(u)
+        r = sh([h32, '2'], input=('%d %s\n' % (u, ' '.join(items))).encode(), env=H.san_env(w), cwd=w, timeout=1500)
+        reports = [open(os.path.join(w, f), errors='replace').read()[:2000] for f in os.listdir(w) if f.startswith(('asan.', 'ubsan.'))]
+        return u, r, reports, len(items)
+    djobs = [(u, False) for u in UIDS] + [(u, True) for u in UIDS] + [(u, 'ilp32') for u in UIDS]
+    for (u0, numdb), (u, r, reports, ni) in zip(djobs, pmap(lambda a: direct32(a[0]) if a[1] == 'ilp32' else direct(*a), djobs)):
         out = r.stdout.decode()
         summ = [l for l in out.splitlines() if l.startswith('uid=')]
         if r.returncode != 0 or reports or not summ:
-            ck.violation('C14:abort:uid=%d%s' % (u, ':database=numeric_login_names' if numdb else ''), {'rc': r.returncode, 'stderr': r.stderr.decode()[-300:], 'sanitizer': reports[:1]})
+            ck.violation('C14:abort:uid=%d%s' % (u, ':database=numeric_login_names' if numdb is True else ':long_has_32_bits' if numdb == 'ilp32' else ''), {'rc': r.returncode, 'stderr': r.stderr.decode()[-300:], 'sanitizer': reports[:1]})
             continue
         n = int(summ[0].split('lists=')[1].split()[0])
         evals += n
@@ -78,7 +91,7 @@ def run(ck):
         for l in out.splitlines():
             if l.startswith('MISMATCH'):
                 f = dict(x.split('=', 1) for x in l.split()[1:])
-                ck.violation('C14:filter_decision:uid=%s:list=%s%s' % (f['uid'], f['list'][:60], ('' if f.get('errno_before') == '0' else ':ambient_errno=' + f.get('errno_before', '?')) + (':database=numeric_login_names' if numdb else '')), {'line': l})
+                ck.violation('C14:filter_decision:uid=%s:list=%s%s' % (f['uid'], f['list'][:60], ('' if f.get('errno_before') == '0' else ':ambient_errno=' + f.get('errno_before', '?')) + (':database=numeric_login_names' if numdb is True else ':long_has_32_bits' if numdb == 'ilp32' else '')), {'line': l})
         samples.append({'uid': u, 'lists': n, 'alphabet': ni})
     # whole path: all lists of <= 2 items, both filters
     def whole(u):
